@@ -10,6 +10,7 @@ git -C /repo worktree add -q --detach $WT HEAD || exit 2
 for d in /verif/seeded/*${PAT}*; do
   id=$(basename $d); pid=${id%%-*}
   git -C $WT checkout -q -- . 
+  if grep -q '"obsolete_since"' $d/meta.json; then echo "$id obsolete: no longer a regression on HEAD (see meta.json)"; continue; fi
   if ! git -C $WT apply --check $d/patch.diff 2>/dev/null; then echo "$id patch does not apply to HEAD"; continue; fi
   cp $d/patch.diff /tmp/selftest_$id.diff
   /verif/selftest/try_isolated.sh $WT /tmp/selftest_$id.diff $pid 2>&1 | sed "s/^selftest_selftest_$id/$id/" | cut -c1-160
